@@ -6,6 +6,7 @@ import (
 	"fmt"
 	"io"
 	"runtime"
+	"strings"
 	"sync"
 
 	"github.com/gobwas/ws"
@@ -38,7 +39,8 @@ var zeroH = vh.H{Mask: []int{0, 0, 0, 0}, Len: vh.Len8(0)}
 // decode runs one of the two header decoders over data served with the given
 // chunk sizes, and reports what it returned and how many source bytes it took.
 func decode(who string, data []byte, sizes []int, chunk string) decRes {
-	src := &vh.ChunkReader{Data: data, Sizes: sizes}
+	// A chunk name ending in "+eof" serves the last bytes together with io.EOF.
+	src := &vh.ChunkReader{Data: data, Sizes: sizes, DataErr: strings.HasSuffix(chunk, "+eof")}
 	var (
 		h   ws.Header
 		err error
@@ -91,6 +93,11 @@ func c01(c *ctx) {
 			// split once at every position inside the header
 			k := 1 + rng.Intn(wb.Len()+1)
 			decs = append(decs, decode(who, data, []int{k, 1 << 20}, fmt.Sprintf("split%d", k)))
+			// the header is the last thing in the stream and its last bytes
+			// arrive together with io.EOF
+			decs = append(decs, decode(who, wb.Bytes(), nil, "whole+eof"))
+			decs = append(decs, decode(who, wb.Bytes(), []int{2, 1 << 20}, "hop+eof"))
+			decs = append(decs, decode(who, wb.Bytes(), []int{1}, "1+eof"))
 		}
 		out.Emit(map[string]interface{}{"k": "enc", "key": key, "h": h, "wbytes": vh.Ints(wb.Bytes()),
 			"werr": werr != nil, "size": size, "decs": decs}, true)
@@ -166,7 +173,11 @@ func c01(c *ctx) {
 		b := decode("NextFrame", in, nil, "whole")
 		a1 := decode("ReadHeader", in, []int{1}, "1")
 		b1 := decode("NextFrame", in, []int{1}, "1")
-		rec := map[string]interface{}{"k": "dec", "key": key, "input": vh.Ints(in), "decs": []decRes{a, b, a1, b1}}
+		a2 := decode("ReadHeader", in, nil, "whole+eof")
+		b2 := decode("NextFrame", in, nil, "whole+eof")
+		a3 := decode("ReadHeader", in, []int{2, 1 << 20}, "hop+eof")
+		b3 := decode("NextFrame", in, []int{2, 1 << 20}, "hop+eof")
+		rec := map[string]interface{}{"k": "dec", "key": key, "input": vh.Ints(in), "decs": []decRes{a, b, a1, b1, a2, b2, a3, b3}}
 		out.Emit(rec, true)
 		shapes.Add("dec/%d/%s/%s/%d", len(in), a.St, b.St, secondByte(in))
 		sample(rec)
